@@ -145,4 +145,13 @@ nothing of the training state is silently left out of a checkpoint — the gradi
 included (`Props/C15.lean : full_load_restores_every_object` needs exactly this of every key) -/
 theorem train_objects_all_kept : C15E.wfTrainObjects Gen.C15.trainObjects = true := by decide
 
+/-- the `with` / `try … finally` structure of `save`: **while an exception unwinds only files are closed** (no rename of a
+temporary on the exceptional path), and the annotated table is the table (`Props/C15Engine.lean : exception_safe`) -/
+theorem save_unwind_wf : wfUnwind Gen.C15.saveStmtsX = true ∧ Gen.C15.saveStmtsX.map (·.stmt) = saveStmts := by decide
+
+/-- of the statements of the loop body **only `_do_iteration` is inside the `try` that routes to the kill path** (which
+labels its checkpoint `iter_idx − 1`): nothing that mutates parameters / optimiser / scheduler / scaler
+(`Props/C15Engine.lean : kill_path_after_step_violates`) -/
+theorem kill_path_try_wf : C15E.wfTry Gen.C15.tryEvents = true := by decide
+
 end DirectVerif.Bridge.C15
